@@ -22,6 +22,7 @@ import JubakoModel.Model.DirLayout
 import JubakoModel.Generated.FuncsBytes
 import JubakoModel.Generated.FuncsContent
 import JubakoModel.Generated.FuncsDir
+import JubakoModel.Generated.FuncsOrder
 import JubakoModel.Generated.FuncsSearch
 import JubakoModel.Generated.FuncsView
 import JubakoModel.Generated.FuncsCheck
